@@ -85,7 +85,7 @@ func runC11(c *fw.Ctx, idx int) fw.Result {
 	}
 	// R2: toPairAlign -> variants
 	dir := filepath.Join(c.Tmp, fmt.Sprintf("c11-%d", idx))
-	pairs, errp := run.ToPairAlignDir(ac.sf.Text, ac.refTxt, dir, -1, -1, -1, false, false, 1)
+	pairs, errp := run.ToPairAlignDir(ac.sf.Text, ac.refTxt, dir, -1, -1, -1, false, false, threads)
 	res.Evals++
 	if errp != nil {
 		res.Fail("error-on-valid-input", "sam toPairAlign failed on valid input: "+errp.Error(), files, argv)
